@@ -195,6 +195,31 @@ impl RWorld {
         format!("{}={}|{}|{}|{}", enc_str(p), ex, md, ls, rd)
     }
 
+    /// observation without opening the file (opening stamps the access time on the memory backend)
+    pub fn observe_m(&self, fsid: usize, p: &str) -> String {
+        let full = self.observe_parts(fsid, p);
+        format!("{}={}|{}|{}|-", enc_str(p), full.0, full.1, full.2)
+    }
+    fn observe_parts(&self, fsid: usize, p: &str) -> (String, String, String) {
+        let ex = match self.on_path(fsid, p, |q| q.exists()) {
+            Ok(Ok(true)) => "E",
+            Ok(Ok(false)) => "A",
+            Ok(Err(_)) => "X",
+            Err(_) => "P",
+        };
+        let md = match self.on_path(fsid, p, |q| q.metadata()) {
+            Ok(Ok(m)) => format!("{} {}", enc_type(m.file_type), m.len),
+            Ok(Err(_)) => "-".into(),
+            Err(_) => "P".into(),
+        };
+        let ls = match self.on_path(fsid, p, |q| Ok(q.read_dir()?.map(|c| c.filename()).collect::<Vec<_>>())) {
+            Ok(Ok(l)) => enc_list_sorted(l),
+            Ok(Err(_)) => "-".into(),
+            Err(_) => "P".into(),
+        };
+        (ex.to_string(), md, ls)
+    }
+
     pub fn observe_t(&self, fsid: usize, p: &str) -> String {
         let md = match self.on_path(fsid, p, |q| q.metadata()) {
             Ok(Ok(m)) => format!("{} {} c={} m={}", enc_type(m.file_type), m.len, enc_ts(m.created), enc_ts(m.modified)),
@@ -311,6 +336,7 @@ impl RWorld {
                 .collect::<Vec<_>>()
                 .join(" "),
             ["snapt", fsid, paths @ ..] => paths.iter().map(|p| self.observe_t(us(fsid), &dec_str(p))).collect::<Vec<_>>().join(" "),
+            ["snapm", fsid, paths @ ..] => paths.iter().map(|p| self.observe_m(us(fsid), &dec_str(p))).collect::<Vec<_>>().join(" "),
             ["snap", fsid, paths @ ..] => paths.iter().map(|p| self.observe(us(fsid), &dec_str(p))).collect::<Vec<_>>().join(" "),
             ["op", fsid, name, args @ ..] => {
                 let fsid = us(fsid);
@@ -321,6 +347,32 @@ impl RWorld {
                     ("remove_file", 1) => self.op_unit(fsid, &a(0), |q| q.remove_file()),
                     ("remove_dir", 1) => self.op_unit(fsid, &a(0), |q| q.remove_dir()),
                     ("remove_dir_all", 1) => self.op_unit(fsid, &a(0), |q| q.remove_dir_all()),
+                    ("probe_session", 2) => {
+                        // create_file; observe; write; observe; flush; observe; drop; observe
+                        let b = unhex(&args[1][1..]);
+                        enc_res(
+                            self.on_path(fsid, &a(0), |q| {
+                                let obs = |q: &VfsPath| -> String {
+                                    let len = q.metadata().map(|m| m.len.to_string()).unwrap_or_else(|_| "-".into());
+                                    let content = q.open_file().and_then(|mut f| { let mut v = vec![]; f.read_to_end(&mut v)?; Ok(v) }).map(|v| crate::util::hex(&v)).unwrap_or_else(|_| "-".into());
+                                    format!("{}:{}", len, content)
+                                };
+                                let mut h = q.create_file()?;
+                                let o1 = obs(q);
+                                h.write_all(&b)?;
+                                let o2 = obs(q);
+                                h.flush()?;
+                                let o3 = obs(q);
+                                drop(h);
+                                let o4 = obs(q);
+                                // o2 (written, not flushed) is not compared: whether unflushed bytes are visible is the
+                                // business of the handle type (std File writes through, async-std File buffers)
+                                let _ = o2;
+                                Ok(format!("{}|{}|{}", o1, o3, o4))
+                            }),
+                            |s| s,
+                        )
+                    }
                     ("write", 2) => {
                         let b = unhex(&args[1][1..]);
                         self.op_unit(fsid, &a(0), |q| {
@@ -424,6 +476,17 @@ impl RWorld {
                         let mut buf = vec![0u8; n];
                         let k = h.read(&mut buf)?;
                         buf.truncate(k);
+                        Ok(buf)
+                    }),
+                    |b| enc_bytes(&b),
+                )
+            }
+            ["hreadall", hid] => {
+                let h = self.rh[us(hid)].as_mut().expect("no such read handle");
+                enc_io(
+                    guarded(|| {
+                        let mut buf = vec![];
+                        h.read_to_end(&mut buf)?;
                         Ok(buf)
                     }),
                     |b| enc_bytes(&b),
